@@ -19,6 +19,8 @@ def brackets(cs):
 
 
 def fmt_len(v):
+    if v == 1:
+        return "2.5e-01"          # exponent notation (a token with a hyphen) for 0.25
     return "%g" % (v / float(proj.LSCALE))
 
 
@@ -90,26 +92,37 @@ def render_nexus(doc):
                 L += ["        %s    %s" % (row["lab"], row["seq"])]
             L += ["    ;", "END;", ""]
             continue
+        if b["kind"] == "sets":
+            L += ["BEGIN SETS;"]
+            if b["link"]:
+                L += ["    LINK CHARACTERS = %s;" % b["link"]]
+            for cs in b["charsets"]:
+                L += ["    CHARSET %s = %s;" % (cs["name"], cs["spec"])]
+            L += ["END;", ""]
+            continue
         L += ["BEGIN TREES;"]
         if b["title"]:
             L += ["    TITLE %s;" % b["title"]]
         ntb += 1
         if b["translate"]:
-            # the tables of different blocks differ: token j of the k-th TREES block denotes taxon j+k-1 (cyclically)
+            # no table is the identity and the tables of different blocks differ: token j of the k-th TREES block denotes taxon j+k (cyclically)
             n = len(taxa)
-            table = [taxa[(j + ntb - 1) % n] for j in range(n)]
+            table = [taxa[(j + ntb) % n] for j in range(n)]
             L += ["    TRANSLATE"]
             L += ["        " + ",\n        ".join("%d %s" % (j + 1, lab) for j, lab in enumerate(table)) + ";"]
             token_of = (lambda tb: (lambda lab: str(tb.index(lab) + 1)))(table)
         else:
             token_of = lambda lab: lab
+        number_of = lambda lab: str(taxa.index(lab) + 1)     # taxon number = position in the TAXA block
         if b["lead"]:
             L += ["    " + brackets(b["lead"])]
         for s in b["stmts"]:
             cpre = s["cpre"]
             L += ["    TREE %s%s %s= %s%s; %s" % (brackets(cpre[:1]) + (" " if cpre[:1] else ""), s["name"],
                                                 (brackets(cpre[1:]) + " ") if cpre[1:] else "",
-                                                tree_prefix(s), newick_of(s["tree"], token_of, s["cin"]), brackets(s["caft"]))]
+                                                tree_prefix(s),
+                                                newick_of(s["tree"], number_of if (not b["translate"] and s.get("sym") == "number") else token_of, s["cin"]),
+                                                brackets(s["caft"]))]
         L += ["END;", ""]
     return "\n".join(L)
 
@@ -118,7 +131,8 @@ def render_newick(doc):
     tb = [b for b in doc["blocks"] if b["kind"] == "trees"]
     L = []
     for s in tb[0]["stmts"]:
-        L += ["%s%s%s; %s" % (brackets(s["cpre"]), tree_prefix(s), newick_of(s["tree"], lambda lab: lab, s["cin"]), brackets(s["caft"]))]
+        tok = (lambda lab: str(doc["taxa"].index(lab) + 1)) if s.get("sym") == "number" else (lambda lab: lab)    # plain numeric labels in Newick
+        L += ["%s%s%s; %s" % (brackets(s["cpre"]), tree_prefix(s), newick_of(s["tree"], tok, s["cin"]), brackets(s["caft"]))]
     return "\n".join(L) + "\n"
 
 
@@ -161,6 +175,8 @@ def render_nexml(doc):
             for j, row in enumerate(b["rows"]):
                 L += ['            <row id="row%d_%d" otu="o%d"><seq>%s</seq></row>' % (nc, j + 1, taxa.index(row["lab"]) + 1, row["seq"])]
             L += ['        </matrix>', '    </characters>']
+            continue
+        if b["kind"] != "trees":
             continue
         nb += 1
         L += ['    <trees id="trees%d"%s otus="tax1">' % (nb, (' label="%s"' % xml_esc(b["title"])) if b["title"] else "")]
@@ -259,7 +275,12 @@ def matrix_view(m, codes):
     rows = []
     for tx in m:
         rows.append({"tx": codes.code(tx), "txl": tx.label if tx.label is not None else "", "seq": m[tx].symbols_as_string()})
-    return {"name": lab if isinstance(lab, str) else "", "hasname": lab is not None, "type": str(getattr(m, "data_type", "")), "rows": rows}
+    sets = []
+    for name in sorted(getattr(m, "character_subsets", {}) or {}):
+        cs = m.character_subsets[name]
+        sets.append([str(name), [int(i) for i in getattr(cs, "character_indices", [])]])
+    return {"name": lab if isinstance(lab, str) else "", "hasname": lab is not None, "type": str(getattr(m, "data_type", "")), "rows": rows,
+            "sets": sets}
 
 
 class Pool(object):
@@ -335,7 +356,7 @@ def random_doc(rng):
         w = [0, 0]
         if rng.random() < 0.4:
             w = rng.choice([[1, 2], [1, 4], [2, 1], [3, 4], [1, 1]])
-        return {"name": "t%dx%d" % (b, i), "rt": rng.choice(["", "", "R", "U"]), "w": w,
+        return {"name": "t%dx%d" % (b, i), "sym": "number" if rng.random() < 0.3 else "label", "rt": rng.choice(["", "", "R", "U"]), "w": w,
                 "cpre": comments(0.25), "cpost": comments(0.3), "cin": cin, "caft": comments(0.25),
                 "tree": {"p": p, "lf": labs, "il": il, "ln": ln}}
     nb = rng.randint(1, 4)
@@ -348,5 +369,11 @@ def random_doc(rng):
     for k in range(nchar):
         ncol = rng.randint(2, 6)
         rows = [{"lab": lab, "seq": "".join(rng.choice("ACGT-?") for _ in range(ncol))} for lab in taxa]
-        blocks.insert(rng.randint(0, len(blocks)), {"kind": "chars", "title": "cm%d" % (k + 1), "rows": rows})
+        at = rng.randint(0, len(blocks))
+        blocks.insert(at, {"kind": "chars", "title": "cm%d" % (k + 1), "rows": rows})
+        if rng.random() < 0.6:
+            specs = [("every", "ALL"), ("first", "1-2"), ("rest", "2-."), ("one", "1"), ("two", "1 2")]
+            rng.shuffle(specs)
+            blocks.insert(at + 1, {"kind": "sets", "link": "cm%d" % (k + 1),
+                                   "charsets": [{"name": n_, "spec": sp} for n_, sp in specs[:rng.randint(1, 3)]]})
     return {"taxa": taxa, "blocks": blocks}
